@@ -60,6 +60,21 @@ def main():
     objs += [t1x, data.Term.model_validate(t1.model_dump()), data.Term.model_validate_json(t1.model_dump_json()),
              data.Tag(term=t1x, value="a"), data.Tag.model_validate(cands[0].model_dump()), data.Feature(term=t1x, value=1.0),
              data.Note.model_validate(objs[11].model_dump()) if isinstance(objs[11], data.Note) else data.Note(message="m")]
+    # objects that were hashed and then derived (model_copy(update=...)) or changed by assignment, next to a freshly built equal twin
+    alt = dict(Term=("label", "Other"), Tag=("value", "zz"), Feature=("value", 7.5), Note=("message", "other"),
+               SoundEvent=("geometry", data.TimeStamp(coordinates=0.75)), SoundEventAnnotation=("tags", [cands[0]]),
+               SoundEventPrediction=("score", 0.5), ClipPrediction=("tags", [data.PredictedTag(tag=cands[0], score=0.5)]))
+    for o in list(objs):
+        field, new = alt[type(o).__name__]
+        hash(o)
+        derived = o.model_copy(update={field: new})
+        changed = o.model_copy()
+        hash(changed)
+        try:
+            setattr(changed, field, new)
+        except Exception:   # frozen models (Term) cannot be changed by assignment
+            changed = derived
+        objs += [derived, changed, type(o).model_validate(derived.model_dump())]
     # an equal tag built differently must be encoded like the vocabulary's own tag
     enc = create_tag_encoder([cands[0], cands[4]])
     for twin in (data.Tag(term=t1x, value="a"), data.Tag.model_validate(cands[0].model_dump()), data.Tag.model_validate_json(cands[0].model_dump_json())):
